@@ -567,4 +567,19 @@ def CubicBez.subdivide_3 (self : CubicBez K) : CubicBez K × CubicBez K × Cubic
 def momentIntegrals (c : CubicBez K) : K × K × K :=
   (let (x0, y0) := (c.p0.x, c.p0.y); (let (x1, y1) := ((c.p1.x - x0), (c.p1.y - y0)); (let (x2, y2) := ((c.p2.x - x0), (c.p2.y - y0)); (let (x3, y3) := ((c.p3.x - x0), (c.p3.y - y0)); (let r0 := ((3 : K) * x1); (let r1 := ((3 : K) * y1); (let r2 := (x2 * y3); (let r3 := (x3 * y2); (let r4 := (x3 * y3); (let r5 := ((27 : K) * y1); (let r6 := (x1 * x2); (let r7 := ((27 : K) * y2); (let r8 := ((45 : K) * r2); (let r9 := ((18 : K) * x3); (let r10 := (x1 * y1); (let r11 := ((30 : K) * x1); (let r12 := ((45 : K) * x3); (let r13 := (x2 * y1); (let r14 := ((45 : K) * r3); (let r15 := (spowi x1 2); (let r16 := ((18 : K) * y3); (let r17 := (spowi x2 2); (let r18 := ((45 : K) * y3); (let r19 := (spowi x3 2); (let r20 := ((30 : K) * y1); (let r21 := (spowi y2 2); (let r22 := (spowi y3 2); (let r23 := (spowi y1 2); (let a := ((((((((-r0) * y2) - (r0 * y3)) + (r1 * x2)) + (r1 * x3)) - ((6 : K) * r2)) + ((6 : K) * r3)) + ((10 : K) * r4)); (let lift := (x3 * y0); (let area := ((a * (Scalar.ofRat (1/20 : Rat) : K)) + lift); (let x := (((((((((((((((r10 * r9) - (r11 * r4)) + (r12 * r13)) + (r14 * x2)) - (r15 * r16)) - (r15 * r7)) - (r17 * r18)) + (r17 * r5)) + (r19 * r20)) + (((105 : K) * r19) * y2)) + (((280 : K) * r19) * y3)) - (((105 : K) * r2) * x3)) + (r5 * r6)) - (r6 * r7)) - (r8 * x1)); (let y := ((((((((((((((((-r10) * r16) - (r10 * r7)) - (r11 * r22)) + (r12 * r21)) + (r13 * r7)) + (r14 * y1)) - ((r18 * x1) * y2)) + (r20 * r4)) - (((27 : K) * r21) * x1)) - (((105 : K) * r22) * x2)) + (((140 : K) * r22) * x3)) + (r23 * r9)) + (((27 : K) * r23) * x2)) + (((105 : K) * r3) * y3)) - (r8 * y2)); (let mx := (((x * ((1 : K) / (840 : K))) + (x0 * area)) + (((Scalar.ofRat (1/2 : Rat) : K) * x3) * lift)); (let my := (((y * ((1 : K) / (420 : K))) + ((y0 * a) * (Scalar.ofRat (1/10 : Rat) : K))) + (y0 * lift)); (area, mx, my))))))))))))))))))))))))))))))))))))
 
+def CubicOffset.new (c : CubicBez K) (d : K) : CubicOffset K :=
+  (let q := c.deriv; (let d0 := q.p0.to_vec2; (let d1 := ((2 : K) * (q.p1 - q.p0)); (let d2 := ((q.p0.to_vec2 - ((2 : K) * q.p1.to_vec2)) + q.p2.to_vec2); ({ c := c, q := q, d := d, c0 := (d * (d1.cross d0)), c1 := ((d * (2 : K)) * (d2.cross d0)), c2 := (d * (d2.cross d1)) } : CubicOffset K)))))
+
+def CubicOffset.eval_offset (self : CubicOffset K) (t : K) : Vec2 K :=
+  (let dp := (self.q.eval t).to_vec2; (let norm := (Vec2.new (-dp.y) dp.x); ((norm * self.d) / dp.hypot)))
+
+def CubicOffset.eval (self : CubicOffset K) (t : K) : Point K :=
+  ((self.c.eval t) + (self.eval_offset t))
+
+def CubicOffset.cusp_sign (self : CubicOffset K) (t : K) : K :=
+  (let ds2 := (self.q.eval t).to_vec2.hypot2; ((((((self.c2 * t) + self.c1) * t) + self.c0) / (ds2 * (Scalar.sqrt ds2))) + (1 : K)))
+
+def CubicOffset.eval_deriv (self : CubicOffset K) (t : K) : Vec2 K :=
+  ((self.cusp_sign t) * (self.q.eval t).to_vec2)
+
 end Kurbo
